@@ -771,7 +771,7 @@ def contains(I, ctx, container, item):
             pass
         # symbolic elements (kept apart in the model) or a symbolic item: membership is an equality with some element
         return contains(I, ctx, ListVal(list(container.items.values())), item)
-    if isinstance(container, FmtStr):
+    if isinstance(container, (FmtStr, IsoStr)):
         from . import fmtterms
         return fmtterms.str_method(I, ctx, container, "__contains__").fn(ctx, item)
     if isinstance(container, str):
@@ -949,6 +949,9 @@ def getslice(I, ctx, o, k):
             r = o.items[slice(lo, hi, step)]
             return TupleVal(r, None) if isinstance(o, TupleVal) else ListVal(r)
         raise Unsupported(f"slice step at {ctx.where}")
+    if isinstance(o, (FmtStr, IsoStr)) and all(isinstance(x, (int, type(None))) for x in (lo, hi)):
+        from . import fmtterms
+        return fmtterms.slice_(I, ctx, o, lo, hi)
     if isinstance(o, (TupleVal, ListVal, str)) and all(isinstance(x, (int, type(None))) for x in (lo, hi)):
         if isinstance(o, str):
             return o[slice(lo, hi)]
